@@ -165,6 +165,14 @@ pub fn access(what: u8, addr: usize) {
     report(Kind::Access, addr, what as u64, 0, 9, 9, 0, &mut || 0);
 }
 
+/// Like [`access`], with the size in bytes of the object at `addr` (signal
+/// publication and end of life: lets the handler attribute atomics to signals).
+#[inline(always)]
+#[track_caller]
+pub fn access_sized(what: u8, addr: usize, size: usize) {
+    report(Kind::Access, addr, what as u64, size as u64, 9, 9, 0, &mut || 0);
+}
+
 pub mod core {
     pub use ::core::*;
     pub mod sync {
